@@ -102,6 +102,15 @@ func TestCorpusGen(t *testing.T) {
 		mk("faces/update,combined-update,all-valid", 3, cmdName("localhost", "faces", "update", &mgmt.ControlArgs{FaceId: u(2), FacePersistency: u(2), Mtu: u(1400),
 			Flags: u(5), Mask: u(5), BaseCongestionMarkInterval: u(7), DefaultCongestionThreshold: u(9)})),
 		list("faces", "list")}}
+	// Interests around the MTU of the internal face: split by its link service or not, the management loop must survive them
+	bnd := &caseSpec{faces: facePool[0]}
+	for _, total := range []int{8600, 8700, 8740, 8760, 8770, 8780, 8790, 8795} {
+		n := enc.Name{gen("localhost"), gen("nfd"), gen("rib"), gen("verif-no-such-verb")}
+		n = append(n, enc.NewBytesComponent(enc.TypeGenericNameComponent, make([]byte, total-len(n.Bytes())-20)))
+		bnd.cmds = append(bnd.cmds, mk("rib/verif-no-such-verb,mtu-boundary-interest", 3, n))
+	}
+	bnd.cmds = append(bnd.cmds, mk("rib/register", 3, cmdName("localhost", "rib", "register", &mgmt.ControlArgs{Name: ab})), list("rib", "list"))
+	cases["14-mtu-boundary-interests"] = bnd
 	cases["12-protocol-encoded-commands"] = &caseSpec{faces: facePool[0], cmds: []opCmd{
 		mk("cs/config,spec-encoded", 3, cmdNameSpec("localhost", "cs", "config", &mgmt.ControlArgs{Capacity: u(5000)})),
 		list("cs", "info"),
